@@ -115,6 +115,7 @@ func (w *World) ctxLiteral(al *ssa.Alloc) *ctorInfo {
 	f := al.Parent()
 	out := &ctorInfo{Alloc: al, Consts: map[string]string{}}
 	srcs := map[string]ssa.Value{}
+	var whole ssa.Value
 	started := false
 	for _, in := range al.Block().Instrs {
 		if in == ssa.Instruction(al) {
@@ -126,6 +127,14 @@ func (w *World) ctxLiteral(al *ssa.Alloc) *ctorInfo {
 		}
 		st, ok := in.(*ssa.Store)
 		if !ok {
+			continue
+		}
+		// nc := *S (or nc := BaseContext): every field is copied from S
+		if st.Addr == ssa.Value(al) {
+			if ld, isLd := st.Val.(*ssa.UnOp); isLd && ld.Op.String() == "*" {
+				whole = basePtr(ld.X)
+				out.Prec = nil
+			}
 			continue
 		}
 		fa, isFA := st.Addr.(*ssa.FieldAddr)
@@ -152,6 +161,11 @@ func (w *World) ctxLiteral(al *ssa.Alloc) *ctorInfo {
 	var src ssa.Value
 	for _, fld := range []string{"MaxExponent", "MinExponent", "Traps"} {
 		sv, ok := srcs[fld]
+		if !ok && whole != nil {
+			if _, stored := out.Consts[fld]; !stored || fld == "Traps" {
+				sv, ok = whole, true // copied with the whole value (a cleared Traps field is looked at by the rules that care)
+			}
+		}
 		if !ok || (src != nil && sv != src) {
 			return nil
 		}
